@@ -151,6 +151,31 @@ def run(ctx):
         ctx.decide(okb, "C19.ac", ac.ident, loc_of(ac), "no previous value -> delete; previous value -> reassign it",
                    "the restore branches are attached to the wrong case of 'previous value is None'", disc="polarity")
 
+    # the saved previous value must not be modified through an alias while the context is active
+    from ..evalr import Evaluator as _Ev
+    evx = _Ev(repo, max_depth=0)
+    evx.run(ac, A)
+    prev_terms = set()
+    for e in evx.events:
+        if e.callee == "builtins.getattr" or (e.callee.endswith("getattr")):
+            pass
+    G = None
+    for st_ in [evx.last_state]:
+        for k_, v_ in st_.env.items():
+            if v_[0] == "f" and v_[1] == "getattr" and len(v_[2]) >= 2 and v_[2][1] == T.K(ATTR):
+                G = v_
+    muts = []
+    if G is not None:
+        for e in evx.events:
+            if e.callee in ("method:update", "method:pop", "method:clear", "method:setdefault", "method:popitem", "setitem") and e.args:
+                recv = e.args[0]
+                if recv == G or G in set(T.phi_leaves(recv)):
+                    muts.append(e)
+    ctx.decide(G is not None and not muts, "C19.ac", ac.ident, loc_of(ac, muts[0].node if muts else None),
+               "the saved previous defaults are never modified while the context is active",
+               f"the previous defaults object is modified in place ({muts[0].callee if muts else ''}) through an alias before it is restored: leaving the context "
+               "reinstates an object that now carries this context's settings", disc="alias")
+
     # ------------------------------------------------------------ PoolHandler
     P = repo.cls("aspire.utils:PoolHandler")
     en, ex = P.methods.get("__enter__"), P.methods.get("__exit__")
@@ -243,6 +268,10 @@ MUTANTS = [
     M("exit swallows exceptions", _U, "else:\n            logger.debug(\"Not closing pool\")", "else:\n            logger.debug(\"Not closing pool\")\n        return True", "C19.ph"),
     M("enter saves after replacing", _U, "self.original_log_prior = self.aspire_instance.log_prior\n        if self.pool is not None:", "if self.pool is not None:", "C19.ph",
       more=[("return self.pool\n\n    def __exit__", "self.original_log_prior = self.aspire_instance.log_prior\n        return self.pool\n\n    def __exit__")]),
+]
+MUTANTS += [
+    M("inner context updates the outer defaults in place", _A, "self._checkpoint_defaults = {\n            \"path\": path,\n            \"every\": every,\n            \"save_config\": save_config,\n            \"save_flow\": save_flow,\n            \"saved_config\": False,\n            \"saved_flow\": False,\n        }",
+      "defaults = prev if prev is not None and prev.get(\"path\") == path else {\"saved_config\": False, \"saved_flow\": False}\n        defaults.update(path=path, every=every, save_config=save_config, save_flow=save_flow)\n        self._checkpoint_defaults = defaults", "C19.ac"),
 ]
 NEUTRALS = [
     M("delete through the instance dict", _A, "if hasattr(self, \"_checkpoint_defaults\"):\n                    delattr(self, \"_checkpoint_defaults\")", "self.__dict__.pop(\"_checkpoint_defaults\", None)"),
